@@ -5,6 +5,7 @@ import (
 	"github.com/bokysan/socketace/v2/internal/util/enc"
 	"github.com/pkg/errors"
 	"io"
+	"strings"
 )
 
 var CmdError = Command{
@@ -48,9 +49,11 @@ func (vr *ErrorResponse) Decode(e enc.Encoder, response []byte) error {
 	}
 	data := bytes.NewBuffer(val)
 	str, err := data.ReadString(0)
-	if err != io.EOF {
+	if err != nil && err != io.EOF {
 		return errors.WithStack(err)
 	}
+	// the text ends at the first NUL byte, if there is one
+	str = strings.TrimSuffix(str, "\x00")
 	for _, e := range BadErrors {
 		if e.Error() == str {
 			vr.Err = e
